@@ -56,6 +56,7 @@ func c20(c *Ctx) {
 	c20Groups(c)
 	c20Detector(c)
 	c20FrameTrimmed(c)
+	c20ReportWhenQuiet(c)
 }
 
 func c20Sends(c *Ctx) {
